@@ -34,4 +34,18 @@ theorem by_control_open_above (c : Curve ℝ (V2 ℝ)) (a b ctl : ℝ) (h0 : ctl
 theorem trim_front_shorter_than_tol (c : Curve ℝ (V2 ℝ)) (l : ℝ) (h : |c.length - l| < c.tol) :
     GenRs.trim_front c l = none := by
   rw [C04T.trim_front_eq]; exact C04.between_shorter_than_tol c l c.length h
+/-! ### the range guard of `Curve2::at_length`, as the first statement of the function (regenerated) -/
+
+/-- a cut position outside `[0, L]` yields no station — on every curve, closed ones included: lengths are not wrapped
+    around a closed curve before the test (the translator's pattern requires the guard to be the FIRST statement) -/
+theorem at_length_refuses_exactly_outside (total l : ℝ) :
+    GenRs.at_length_guard total l = true ↔ l < 0 ∨ total < l := by
+  unfold GenRs.at_length_guard
+  simp
+
+theorem at_length_accepts_the_whole_range (total l : ℝ) (h0 : 0 ≤ l) (h1 : l ≤ total) :
+    GenRs.at_length_guard total l = false := by
+  have := (at_length_refuses_exactly_outside total l).not.mpr (by push Not; exact ⟨h0, h1⟩)
+  simpa using this
+
 end C04U
